@@ -490,7 +490,7 @@ def r01_4(ctx, rep):
             shape_ok = False
             continue
         for x in value_sources(g, raw[3][0]):
-            vals.add(render(strip_ids(x), *SP))
+            vals.add(render(strip_pass(strip_ids(x)), *SP))
     detail = " | ".join(sorted(vals))
     LOOKUP = r"get\(arg1\.state_machine\.log, checked_sub\(arg2, 1\)\)"
     src_ok = shape_ok and len(vals) == 2 and "state.purged" in vals and \
@@ -498,7 +498,7 @@ def r01_4(ctx, rep):
     # (b) which source on which path: the record is journalled only after `index == next_log_index(purged)` was found true, or found false
     #     and the index map had an entry at index-1; the refusal LogIndexNotFound only with the selector false
     gets = [n for n in P.calls(r"BTreeMap::<K, V, A>::get$")
-            if re.search(LOOKUP, render(strip_ids(("call", "get", tuple(event_args(g, n)))), *SP))]
+            if re.search(LOOKUP, render(strip_pass(strip_ids(("call", "get", tuple(event_args(g, n))))), *SP))]
     gset = set(gets)
     eo = [call_outcome(P, n) for n in encs]
     want = ("eq(arg2, next_log_index(state.purged))", "eq(next_log_index(state.purged), arg2)")
